@@ -1,13 +1,74 @@
+pub mod checks;
 pub mod corpus;
+pub mod drivers;
+pub mod engine;
+pub mod interp;
+pub mod run;
+pub mod settings;
+pub mod shape;
 pub mod spm;
 
+use serde_json::Value;
+
+fn machinery(msg: &str) -> ! {
+    eprintln!("machinery error: {msg}");
+    std::process::exit(2)
+}
+
 pub fn main_entry(hooks: bool) {
+    let args: Vec<String> = std::env::args().skip(1).collect();
+    if args.is_empty() {
+        machinery("usage: mc check <ID> [--tier quick|thorough] | mc replay <file> | mc conformance");
+    }
+    run::install_quiet_panic_hook();
     let _ = hooks;
-    match corpus::check_conformance() {
-        Ok(c) => println!("conformance ok: {c:?}"),
-        Err(e) => {
-            eprintln!("{e}");
-            std::process::exit(2)
+    match args[0].as_str() {
+        "conformance" => match corpus::check_conformance() {
+            Ok(c) => println!("conformance ok: {c:?}"),
+            Err(e) => machinery(&e),
+        },
+        "check" => {
+            let id = args.get(1).cloned().unwrap_or_default();
+            let (tier, seed) = engine::tier_and_seed(&args);
+            if let Err(e) = corpus::check_conformance() {
+                machinery(&e);
+            }
+            let code = match id.as_str() {
+                "C01" => checks::c01::run(&tier, seed),
+                other => machinery(&format!("unknown property {other}")),
+            };
+            std::process::exit(code)
         }
+        "replay" => {
+            let path = args.get(1).cloned().unwrap_or_default();
+            let text = std::fs::read_to_string(&path).unwrap_or_else(|e| machinery(&format!("{path}: {e}")));
+            let v: Value = serde_json::from_str(&text).unwrap_or_else(|e| machinery(&format!("{path}: {e}")));
+            let prop = v["property"].as_str().unwrap_or("").to_string();
+            let replay = &v["replay"];
+            let vs = match replay["check"].as_str().unwrap_or("") {
+                "C01" => {
+                    let case: drivers::Case = serde_json::from_value(replay["case"].clone())
+                        .unwrap_or_else(|e| machinery(&format!("case: {e}")));
+                    // determinism of the replay itself
+                    let a = checks::c01::replay(&case);
+                    let b = checks::c01::replay(&case);
+                    if a.iter().map(|x| &x.sig).collect::<Vec<_>>() != b.iter().map(|x| &x.sig).collect::<Vec<_>>() {
+                        machinery("replay is not deterministic");
+                    }
+                    a
+                }
+                other => machinery(&format!("unknown replay kind {other}")),
+            };
+            if vs.is_empty() {
+                println!("replay: no violation (property {prop} holds on this case)");
+                std::process::exit(0)
+            }
+            for x in &vs {
+                println!("VIOLATION property={prop} replay={path}");
+                eprintln!("  signature: {}\n  {}", x.sig, x.detail);
+            }
+            std::process::exit(1)
+        }
+        other => machinery(&format!("unknown command {other}")),
     }
 }
